@@ -1,5 +1,134 @@
-(* C02 - property theorems only (DESIGN.md 6.C02). *)
-From Coq Require Import List NArith ZArith Bool String.
+(* C02 - property theorems only (DESIGN.md 6.C02).
+   Model: Topo/Api.v (step : topo -> call -> topo * result for insert_misc, info edits, allow, Group
+   alloc/insert/free) and Topo/Insert.v (hwloc___insert_object_by_cpuset).  Proofs: Topo/ApiProofs.v.
+   restrict / distances / memattrs / cpukinds are other models (C08, C13, C14, C15); histories containing
+   them are decided on the C side (checks/c02.py). *)
+From Coq Require Import List NArith ZArith Bool String Permutation.
 From HV Require Import Base.BSet Gen.Tables Text.TypeOrder Topo.Dump Topo.WFCheck Topo.Obj Topo.Insert Topo.Api Topo.ApiProofs.
 Import ListNotations.
 Local Open Scope N_scope.
+
+(* Every modelled call other than insert_misc / insert_group, with any argument, valid or not, leaves the
+   object tree literally unchanged. *)
+Theorem step_tree_unchanged : forall t c, structural c = false -> m_root (fst (step t c)) = m_root t.
+Proof. exact ApiProofs.step_tree_unchanged. Qed.
+Print Assumptions step_tree_unchanged.
+
+(* Inv (sibling cpusets pairwise disjoint and ordered, child sets inside the parent's, parent cpuset = union
+   of the children's, gp_index unique and below next_gp_index, allowed sets inside the root's complete sets)
+   is preserved by every such call, for every argument.  _partial: insert_misc and insert_group are excluded;
+   for Group insertion the full statement is FALSE on the faithful model (refuted below). *)
+Theorem step_preserves_inv_partial : forall t c, structural c = false -> Inv t -> Inv (fst (step t c)).
+Proof. exact ApiProofs.step_preserves_inv_partial. Qed.
+Print Assumptions step_preserves_inv_partial.
+
+Theorem history_preserves_inv_partial : forall cs t,
+  forallb (fun c => negb (structural c)) cs = true -> Inv t -> Inv (run t cs).
+Proof. exact ApiProofs.history_preserves_inv_partial. Qed.
+Print Assumptions history_preserves_inv_partial.
+
+Example Inv_nonvacuous : Inv topo1 /\ Inv (run topo1 [CAllow 4 (Some (bs_of_N 3)) None; CInfoAdd 8 (Some "a"%string) (Some "b"%string); CGroupFree (gsp 3 true 0)]).
+Proof. split; [exact Inv_topo1|]. apply ApiProofs.history_preserves_inv_partial; [reflexivity|exact Inv_topo1]. Qed.
+
+(* allowed sets stay inside the root's complete sets after hwloc_topology_allow, for every flag word and sets *)
+Theorem allow_preserves_allowed : forall t f c n, allowed_ok t -> allowed_ok (fst (step_allow t f c n)).
+Proof. exact ApiProofs.allow_preserves_allowed. Qed.
+Print Assumptions allow_preserves_allowed.
+
+(* ... but ALL copies the root COMPLETE sets: with an offline PU the allowed cpuset leaves the root cpuset
+   (hwloc_topology_check: hwloc_bitmap_isincluded(allowed_cpuset, root->cpuset)) *)
+Theorem allow_all_within_root_cpuset_refuted : exists t,
+  bs_subset (m_acpu t) (root_set t o_cs) = true /\
+  snd (step t (CAllow HWLOC_ALLOW_FLAG_ALL None None)) = RInt 0 /\
+  bs_subset (m_acpu (fst (step t (CAllow HWLOC_ALLOW_FLAG_ALL None None)))) (root_set t o_cs) = false.
+Proof. exists topo_off. exact allow_all_leaves_root_cpuset. Qed.
+Print Assumptions allow_all_within_root_cpuset_refuted.
+
+(* A call that fails with an errno leaves every observable attribute unchanged (tree, flags, filters, allowed
+   sets, infos, per-object extras), for every call and argument except CUSTOM allow with both sets. *)
+Theorem step_error_is_identity_partial : forall t c e,
+  partial_update_call c = false -> snd (step t c) = RErr e -> obs (fst (step t c)) = obs t.
+Proof. exact ApiProofs.step_error_is_identity_partial. Qed.
+Print Assumptions step_error_is_identity_partial.
+
+Example error_identity_nonvacuous :
+  snd (step topo0 (CAllow 8 None None)) = RErr EINVAL /\ snd (step topo0 (CGroup (gsp 0 false 0))) = RErr EINVAL.
+Proof. split; vm_compute; reflexivity. Qed.
+
+Theorem step_error_is_identity_refuted : exists t c,
+  snd (step t c) = RErr EINVAL /\ m_acpu (fst (step t c)) <> m_acpu t.
+Proof.
+  exists topo0d, (CAllow HWLOC_ALLOW_FLAG_CUSTOM (S 3) (S 32)).
+  destruct allow_einval_partial_update as (H1 & H2 & H3). split; [exact H1|]. rewrite H2, H3. discriminate.
+Qed.
+Print Assumptions step_error_is_identity_refuted.
+
+(* gp_index: through any history of non-restructuring calls the tree (hence every gp_index) is the same *)
+Theorem gp_index_stable_partial : forall cs t,
+  forallb (fun c => negb (structural c)) cs = true -> m_root (run t cs) = m_root t.
+Proof. exact ApiProofs.gp_index_stable_partial. Qed.
+Print Assumptions gp_index_stable_partial.
+
+(* ... while Group insertion can make an existing object lose its gp_index (and userdata): a mergeable
+   Group of smaller kind overwrites the existing Group in place (hwloc_replace_linked_object) *)
+Theorem gp_index_stable_refuted : exists t g old,
+  Inv t /\ existsb (N.eqb old) (gps (m_root t)) = true /\
+  existsb (N.eqb old) (gps (m_root (fst (step t (CGroup g))))) = false.
+Proof.
+  exists topo1, (gsp 3 false 3), 8. destruct group_smaller_kind_replaces_identity as (_ & H2 & H3).
+  split; [exact Inv_topo1|]. split; assumption.
+Qed.
+Print Assumptions gp_index_stable_refuted.
+
+(* userdata of every existing object (named by gp_index) is never altered, for EVERY call including Group
+   insertion and every argument, along whole histories *)
+Theorem userdata_untouched : forall cs t g,
+  g < m_next_gp t -> x_ud (get_extra (m_extra (run t cs)) g) = x_ud (get_extra (m_extra t) g).
+Proof. exact ApiProofs.history_userdata_untouched. Qed.
+Print Assumptions userdata_untouched.
+
+Example userdata_nonvacuous : x_ud (get_extra (m_extra topo1) 8) = true /\ 8 < m_next_gp topo1.
+Proof. split; reflexivity. Qed.
+
+(* Group insertion does NOT preserve Inv on the faithful model: two dont_merge Groups of different kinds with
+   the same cpuset become siblings (and the new one has no complete_cpuset / nodeset) *)
+Theorem step_preserves_inv_refuted : exists t g,
+  Inv t /\ tree_inv (m_root (fst (step t (CGroup g)))) = false.
+Proof. exists topo2, (gsp 3 true 7). split; [exact Inv_topo2|exact group_dontmerge_same_cpuset_breaks_inv]. Qed.
+Print Assumptions step_preserves_inv_refuted.
+
+(* ... and a dont_merge Group over a mergeable Group returns the zeroed struct (gp_index 0) *)
+Theorem group_insert_returns_linked_object_refuted : exists t g,
+  Inv t /\ snd (step t (CGroup g)) = RObj (Some 0) true.
+Proof. exists topo1, (gsp 3 true 3). split; [exact Inv_topo1|]. exact (proj1 group_replace_returns_zeroed). Qed.
+Print Assumptions group_insert_returns_linked_object_refuted.
+
+(* hwloc___insert_object_by_cpuset, one level, for every children list: when every child is disjoint from
+   OBJ or strictly inside it, OBJ is inserted, the disjoint children stay in order, the others become OBJ's
+   children in order, and no child is lost or duplicated *)
+Theorem insert_keeps_children_partial : forall rec dms dm_new d m i x l o,
+  Forall (flat_child dms dm_new o) l ->
+  exists (n' K T : list obj),
+    ins_loop rec dms dm_new d m i x l [] [] None o = (Obj d n' m i x, OInserted) /\
+    Permutation n' (with_children o T :: K) /\ Permutation (K ++ T) l.
+Proof. exact ApiProofs.ins_loop_flat_no_loss. Qed.
+Print Assumptions insert_keeps_children_partial.
+
+(* no object lost on the put-back path: when the insertion is abandoned at this level (intersection without
+   inclusion) CUR's children are exactly the old ones, whatever the order and the sets *)
+Theorem putback_no_object_lost : forall rec dms dm_new d m i x l kept_rev taken putp o n' mm ii xx dd,
+  Forall (fail_child dms dm_new o) l ->
+  ins_loop rec dms dm_new d m i x l kept_rev taken putp o = (Obj dd n' mm ii xx, OFail) ->
+  Permutation n' (rev kept_rev ++ taken ++ l).
+Proof. exact ApiProofs.ins_loop_fail_no_loss. Qed.
+Print Assumptions putback_no_object_lost.
+
+Theorem putback_is_permutation : forall l taken, Permutation (putback l taken) (l ++ taken).
+Proof. intros l taken. apply putback_perm. Qed.
+Print Assumptions putback_is_permutation.
+
+Example insert_nonvacuous :
+  snd (step topo1 (CGroup (gsp 12 false 0))) = RObj (Some 9) true /\
+  tree_inv (m_root (fst (step topo1 (CGroup (gsp 12 false 0))))) = true /\
+  snd (step topo0 (CGroup (gsp 6 false 0))) = RNull /\ m_root (fst (step topo0 (CGroup (gsp 6 false 0)))) = m_root topo0.
+Proof. repeat split; vm_compute; reflexivity. Qed.
